@@ -457,3 +457,106 @@ def loop_programs(rng, n):
         out.append(e)
     out.append(LOOP([(A_B, K(1)), (XQ, K(2)), (I, K(None))], IF(L(I), VEC(L(A_B), L(XQ)), RECUR(L(XQ), L(A_B), K(7)))))
     return out
+
+
+# ---- the exception fragment of C01X (simulation theorem): core + loops + throw/try --------
+QX = "Verif.C01X.XLisp."
+
+
+def in_x_fragment(e, in_try=False):
+    """syntactic membership; a recur may not cross a try (it must belong to a loop inside it)"""
+    k = e[0]
+    if k in ("const", "local"):
+        return True
+    if k in ("if", "do"):
+        return all(in_x_fragment(x, in_try) for x in e[1:])
+    if k == "let":
+        return in_x_fragment(e[2], in_try) and in_x_fragment(e[3], in_try)
+    if k == "prim":
+        return all(in_x_fragment(a, in_try) for a in e[2])
+    if k == "veclit":
+        return all(in_x_fragment(a, in_try) for a in e[1])
+    if k == "loop":
+        return all(in_x_fragment(i, in_try) for _, i in e[1]) and in_x_fragment(e[2], False)
+    if k == "recur":
+        return not in_try and all(in_x_fragment(a, in_try) for a in e[1])
+    if k == "throw":
+        return in_x_fragment(e[1], in_try)
+    if k == "try":
+        return (in_x_fragment(e[1], True) and (e[2] is None or in_x_fragment(e[2][2], True))
+                and (e[3] is None or in_x_fragment(e[3], True)))
+    return False
+
+
+def has_try(e):
+    if isinstance(e, (list, tuple)):
+        if e and e[0] in ("try", "throw"):
+            return True
+        return any(has_try(x) for x in e)
+    return False
+
+
+def coq_xexpr(e):
+    k = e[0]
+    L_ = lambda es: G.lst([coq_xexpr(a) for a in es], QX + "xexpr")
+    nil = f"({QX}XConst {QS}VNil)"
+    if k == "const":
+        return f"({QX}XConst {_sval(e[1])})"
+    if k == "local":
+        return f"({QX}XLocal {G.n(e[1])})"
+    if k == "if":
+        return f"({QX}XIf {coq_xexpr(e[1])} {coq_xexpr(e[2])} {coq_xexpr(e[3])})"
+    if k == "do":
+        return f"({QX}XDo {coq_xexpr(e[1])} {coq_xexpr(e[2])})"
+    if k == "let":
+        return f"({QX}XLet {G.n(e[1])} {coq_xexpr(e[2])} {coq_xexpr(e[3])})"
+    if k == "prim":
+        if e[1].startswith("exc"):
+            f = f"({QS}PMkExc {G.n(int(e[1][3:]))})"
+        else:
+            f = QS + {"t": "PTrace", "vec": "PVec", "conj": "PConj", "inc": "PInc", "lt": "PLt"}[e[1]]
+        return f"({QX}XCall {f} {L_(e[2])})"
+    if k == "veclit":
+        return f"({QX}XCall {QS}PVec {L_(e[1])})"
+    if k == "loop":
+        bs = G.lst([f"({G.n(x)}, {coq_xexpr(i)})" for x, i in e[1]], f"(N * {QX}xexpr)%type")
+        return f"({QX}XLoop {bs} {coq_xexpr(e[2])})"
+    if k == "recur":
+        return f"({QX}XRecur {L_(e[1])})"
+    if k == "throw":
+        return f"({QX}XThrow {coq_xexpr(e[1])})"
+    if k == "try":
+        h = "None" if e[2] is None else f"(Some ({G.n(e[2][0])}, {G.n(e[2][1])}))"
+        hb = nil if e[2] is None else coq_xexpr(e[2][2])
+        fin = nil if e[3] is None else coq_xexpr(e[3])
+        return f"({QX}XTry {coq_xexpr(e[1])} {h} {hb} {'false' if e[3] is None else 'true'} {fin})"
+    raise ValueError(k)
+
+
+def exc_programs(rng, n):
+    """programs of the exception fragment: random typed programs that fit, plus loops whose
+    bodies raise, catch and run finally clauses"""
+    out = []
+    g = Gen(rng)
+    tries = 0
+    while len(out) < n and tries < 60 * n:
+        tries += 1
+        e = g.expr(rng.choice(["any", "int", "vec"]), rng.choice([2, 3, 3, 4]), [])
+        if in_x_fragment(e) and has_try(e):
+            out.append(e)
+    for _ in range(max(3, n // 4)):
+        i, acc = rng.choice([I, N_]), rng.choice([ACC, V])
+        bound = rng.randint(1, 3)
+        cls = rng.choice([1, 4])
+        hcls = rng.choice([0, 1, 4])
+        guarded = TRY(DO(T(L(i)), IF(P("lt", L(i), K(rng.randint(0, 2))), L(i), THROW(P("exc" + str(cls), T(L(i)))))),
+                      (hcls, E, DO(T(g.tk()), K(-1))) if rng.random() < 0.7 else None,
+                      T(g.tk()) if rng.random() < 0.7 else None)
+        if guarded[2] is None and guarded[3] is None:
+            guarded = TRY(guarded[1], None, T(g.tk()))
+        body = IF(P("lt", L(i), K(bound)), RECUR(P("inc", L(i)), P("conj", L(acc), guarded)), L(acc))
+        e = LOOP([(i, K(0)), (acc, VEC())], body)
+        if rng.random() < 0.5:
+            e = TRY(e, (rng.choice([0, 1, 4]), V, VEC(T(g.tk()), L(V))), T(g.tk()) if rng.random() < 0.5 else None)
+        out.append(e)
+    return out
